@@ -33,10 +33,12 @@ CLAIMED.update({
          "the taken actions, each starting from the state the previous one left. Runtime registration is decided by engine L. "
          "The C01 monitor judges every observed history (engines L and F).", "5 C01",
          "Coq invariants incl. the fold over histories + lockstep schedule replay (engine L) + free runs (engine F) + monitor"),
- "C02": ("Coq: for every policy and schedule what the reducer takes is an in-order subsequence of what entered the "
-         "queue; sends append at the tail, recv takes the head. Partial: Inv < Enq < Ret per call is a step-level fact of "
-         "the model checked by engine L (all three entry points, thunks), not yet a theorem over histories.", "5 C02",
-         "Coq FIFO invariant + lockstep schedule replay (engine L) + order monitor"),
+ "C02": ("Coq, every policy, program and schedule: what the reducer takes is an in-order subsequence of what entered the "
+         "queue, and in every reachable history every enqueue lies between the invocation and the return of a dispatch of that "
+         "action (the return is the very next event, an invocation is older) - so a dispatch that returned before another "
+         "was invoked is enqueued, hence taken, first. Engine L replays schedules over all three entry points, thunks and "
+         "effect workers with TX probes; the order monitor judges every history (engines L and F).", "5 C02",
+         "Coq FIFO + enqueue-between-invoke-and-return invariants + lockstep schedule replay (engine L) + order monitor"),
  "C03": ("Coq: per action, subscribers are called iff the last reducer said Dispatch and no before_dispatch hook said "
          "Done, each once, in registration order, with the new state. Partial: the stream over a run is decided by "
          "engine L and the C03 monitor.", "5 C03", "Coq pure theorem + lockstep schedule replay (engine L) + stream monitor"),
@@ -84,11 +86,12 @@ CLAIMED.update({
          "Partial: own thread and flush-before-return hold by construction of the model's join steps; decided by engine L "
          "(stalled subscriber, capacities 1..3, all policies, probe that unsubscribe waits) and the C10 monitor.",
          "5 C10", "Coq channel-stream invariant + lockstep schedule replay with probes (engine L) + monitor"),
- "C11": ("Coq: one fresh worker per effect handed to the pool, whose first step runs it in its own context; after stop() "
-         "nothing runs (C04 finality). Partial: exactly-once over histories and Effect::Action ordering are decided by "
-         "engine L (four effect kinds, panics, thunks dispatching, stop before/after spawn) and the C11 monitor; effects of "
-         "backlog actions skipped after stop() took the pool (F4) is a listed known finding, witnessed in Coq and on the real code.",
-         "5 C11", "Coq spawn/finality lemmas + lockstep schedule replay (engine L) + monitor with known class F4"),
+ "C11": ("Coq: one fresh worker per effect handed to the pool, whose first step runs it in its own context; over whole "
+         "histories no thread ever logs two effect runs (every schedule); after stop() nothing runs (C04 finality). Partial: "
+         "Effect::Action ordering and 'every effect of an accepted action' are decided by engine L (four effect kinds, panics, "
+         "thunks dispatching, stop before/after spawn) and the C11 monitor; effects of backlog actions skipped after stop() took "
+         "the pool (F4) is a listed known finding, witnessed in Coq and on the real code.",
+         "5 C11", "Coq spawn/at-most-once/finality theorems + lockstep schedule replay (engine L) + monitor with known class F4"),
  "C13": ("Coq: the exact enabledness of every waiting step (wait-for edges) and the steps that never wait; by evaluation, a "
          "reachable world in which no thread can step after an iterator was released early (known finding F5, also replayed "
          "on the real code). Partial: deadlock freedom of all other worlds is not yet a theorem; engine L probes every "
